@@ -36,7 +36,7 @@ def install(E):
             out = []
             fin = final_cell(I, me)
             ws = [ev for ev in I.events if ev[0] == 'cell_write']
-            out.append(I.E.check_true(I, fin is not None and len(ws) == 1 and ws[0][1] == cell_key(me), 'E7: %s writes the receiver\'s cell exactly once and no other cell' % name,
+            out.append(I.E.check_true(I, fin is not None and len(ws) >= 1 and all(w[1] == cell_key(me) for w in ws), 'E7: %s writes the receiver\'s cell and no other cell' % name,
                                       {'writes': [show_key(w[1]) for w in ws]}))
             if fin is not None:
                 out.append(I.E.check_valid(I, lambda b: Iff(D(I, fin, b), f(D(I, old(me), b), D(I, old(other), b))),
@@ -86,7 +86,7 @@ def install(E):
         out, m = minterm_checks(I, 'S: insert: ', ('lin', Lin.var(('int', show_key(('fld', me, '', 'bits'))))), I.term_of(e))
         fin = final_cell(I, me)
         ws = [ev for ev in I.events if ev[0] == 'cell_write']
-        out.append(I.E.check_true(I, fin is not None and len(ws) == 1 and ws[0][1] == cell_key(me), 'E7: insert writes the receiver\'s cell exactly once', {'writes': [show_key(w[1]) for w in ws]}))
+        out.append(I.E.check_true(I, fin is not None and len(ws) >= 1 and all(w[1] == cell_key(me) for w in ws), 'E7: insert writes the receiver\'s cell and no other cell', {'writes': [show_key(w[1]) for w in ws]}))
         if fin is not None and m is not None:
             out.append(I.E.check_valid(I, lambda b: Iff(D(I, fin, b), Or(D(I, old(me), b), D(I, m, b))), 'S: insert: new content == old content or minterm(e) (new = %s)' % show_key(fin)))
         return out
